@@ -55,6 +55,26 @@ def gen_inputs(ck):
         if r < 0.25:
             out.append((x, 'valid'))
             continue
+        if r < 0.33:
+            # deep nesting in place of a value that read_stream treats specially (pieces is not decoded; name, files, ... are validated)
+            import copy
+            md2 = copy.deepcopy(md)
+            where = rng.choice(['pieces', 'pieces', 'name', 'files', 'piece length', 'info-extra', 'announce', 'private', 'creation date', 'path'])
+            if where == 'info-extra':
+                md2['info']['zzz'] = '@@NEST@@'
+            elif where in ('announce', 'creation date'):
+                md2[where] = '@@NEST@@'
+            elif where == 'path' and 'files' in md2['info']:
+                md2['info']['files'][0]['path'] = '@@NEST@@'
+            elif where == 'files':
+                md2['info'].pop('length', None)
+                md2['info']['files'] = '@@NEST@@'
+            else:
+                md2['info'][where if where != 'path' else 'pieces'] = '@@NEST@@'
+            k = rng.choice([1, 3, 30, 100, 200, 700, 900, 1200, 2000, 5000])
+            inner = rng.choice([b'', b'', b'i1e', b'20:' + b'a' * 20])
+            out.append((benc(md2).replace(b'8:@@NEST@@', b'l' * k + inner + b'e' * k), 'nest-at:' + where))
+            continue
         b = bytearray(x)
         kind = rng.choice(['truncate', 'flip', 'splice', 'prefix', 'dup', 'cd', 'private', 'nest', 'delete', 'insert'])
         if kind == 'truncate':
@@ -83,7 +103,7 @@ def gen_inputs(ck):
         elif kind == 'private':
             b = bytearray(bytes(b).replace(b'4:infod', b'4:infod7:private' + rng.choice([b'i2e', b'i-1e', b'0:', b'1:x', b'le', b'li0ee', b'de']) if b'7:private' not in bytes(b) else b'4:infod', 1))
         elif kind == 'nest':
-            k = rng.choice([3, 30, 100, 2000, 5000])
+            k = rng.choice([3, 30, 100, 600, 800, 2000, 5000])
             b = bytearray(b'd1:!' + b'l' * k + b'e' * k + bytes(b[1:]))
         elif kind == 'delete':
             i = rng.randrange(len(b))
